@@ -2,7 +2,7 @@
 import vlib, histlib
 
 def run(res, tier, seed, replay):
-    res.cov["rule"] = ("real: the random histories of C02 with __clear_cache interposed (it records the range and a copy of its content at call time); at every operation boundary each byte of a target entry or trampoline that differs "
+    res.cov["rule"] = ("real: the random histories of C02, plus synthetic targets at every byte alignment (0..15 mod 16), page-straddling and low-address entries, with __clear_cache interposed (it records the range and a copy of its content at call time); at every operation boundary each byte of a target entry or trampoline that differs "
                        "from the previous boundary must lie in a flushed range of that segment, and the LAST flush covering it must already have seen the final byte; the multiset of flush events (range, content) per segment "
                        "equals the model's; distinct = distinct (lifetimes, op-kind set, repeated-target flag)")
     res.cov["trusted_base"] = vlib.TRUSTED_COMMON + ["harness/real interposer of __clear_cache (a no-op on x86-64, so replacing it does not change behaviour)"]
@@ -12,3 +12,9 @@ def run(res, tier, seed, replay):
     if not ok: res.broke("extraction of the model failed", out); return
     n = 120 if tier == "quick" else 4000
     histlib.check_histories(res, "c17", n, seed + 17, "flush", max_lifetimes=3 if tier == "quick" else 6, extra_lines=histlib.CORPUS)
+    # target placements: hand-placed code at every byte alignment (entry = 0..15 mod 16), entries straddling a page, low addresses
+    import arenalib, random
+    rr = random.Random(seed + 170)
+    modes = [f"align{k}" for k in range(16)] + ["straddle"] * 6 + ["low"] * 2
+    if tier == "thorough": modes = modes * 10
+    histlib.check_histories(res, "c17", 0, seed + 170, "flush", extra_lines=[arenalib.gen(rr, f"a{i}", mode=m) for i, m in enumerate(modes)])
